@@ -234,9 +234,19 @@ func init() {
 						if d, _ := md.ICCProfileData(); d != nil && which == s.fmt {
 							profiles = append(profiles, d)
 							var p *icc.Profile
-							o2 := measure(func() { p, _ = md.ICCProfile() })
+							var perr error
+							o2 := measure(func() { p, perr = md.ICCProfile() })
 							check("Data.ICCProfile", o2)
-							_ = p
+							// the accessors are asked again on the same value: a second call returns, and returns the same
+							var p2 *icc.Profile
+							var perr2 error
+							o3 := measure(func() { p2, perr2 = md.ICCProfile() })
+							check("Data.ICCProfile (second call)", o3)
+							d2, _ := md.ICCProfileData()
+							if (perr == nil) != (perr2 == nil) || (p == nil) != (p2 == nil) || !bytes.Equal(d, d2) {
+								c.res.fail(Failure{Class: "C09:accessor-not-idempotent", Desc: "asking the metadata value for its profile a second time gives a different answer (" + what + ")", Input: in,
+									Got: fmt.Sprint(perr2 == nil, p2 != nil, len(d2)), Want: fmt.Sprint(perr == nil, p != nil, len(d))})
+							}
 						}
 					}
 					if c.runner != nil && which == s.fmt && len(data) < 200000 {
